@@ -53,7 +53,7 @@ class C16(Plugin):
                         a[1] = a[1] % 64 + 64 * rng.choice([0, 1, 3]) + 4096 * rng.choice([0, 0, 7])
             port = rng.choice([0, 1, 80, 443, 8080, 65535, rng.randint(0, 65535)])
             if rng.random() < 0.7:
-                cases.append(["t", rng.randint(0, 1), rng.randint(0, 1), 1 if rng.random() < 0.8 else 0, port, addrs])
+                cases.append(["t", rng.choice([0, 1, 1, 2]), rng.choice([0, 1, 1, 2]), 1 if rng.random() < 0.8 else 0, port, addrs])
             else:
                 cases.append(["s", rng.choice(["4", "6", "n"]), "-", 1 if rng.random() < 0.9 else 0, port, addrs])
         return cases, {"rule": f"exhaustive over all family patterns of length <= {maxlen} x 3 preferences "
